@@ -12,13 +12,13 @@ import (
 )
 
 type Env struct {
-	vars  map[string]Value
-	st    *State
-	fc    *funcCtx
-	bound map[string]string // quantifier-bound variable -> sort
-	old   *Env              // environment for old(...)
-	heaps map[string]string // heap override (for old)
-	kTerm string            // value of $k
+	vars   map[string]Value
+	st     *State
+	fc     *funcCtx
+	bound  map[string]string // quantifier-bound variable -> sort
+	old    *Env              // environment for old(...)
+	heaps  map[string]string // heap override (for old)
+	kTerm  string            // value of $k
 	kOther map[string]string // $kN for enclosing range loops
 }
 
